@@ -26,7 +26,7 @@ ASSUMPTIONS = [
     "accept masks: window mask == selection on every azimuth; peak mask == selection restricted to windows that have a peak",
 ]
 NOT_REACHED = ["STA/LTA lengths longer than the window (refused with IndexError)", "more than 40 windows"]
-BUDGET = {"quick": dict(cases=1000, seconds=60, shards=4),
+BUDGET = {"quick": dict(cases=4000, seconds=60, shards=4),
           "thorough": dict(cases=240000, seconds=600, shards=16)}
 REQUIRED = ["mon:returned-are-same-objects-in-order", "mon:clearly-keep-kept", "mon:clearly-reject-rejected",
             "mon:masks-equal-selection", "mon:alone-equals-in-list", "mon:rescaling-invariant", "mon:widening-monotone",
